@@ -15,6 +15,12 @@
      fn 5    Region.get_unique_protoclusters (both branches); order = the set the function builds
      fn 6    CDSResults.to_json definition_domains / HMMDetectionResults.enabled_types (sorted sets of str)
      fn 7    Feature.to_biopython: sorted notes, sorted qualifier keys
+     fn 8    CDSResults.annotate: CORE gene functions added in the iteration order of the Set[str] of definition domains
+     fn 9    cluster_prediction.filter_results on real identity-hashed hit objects (no observable order: every child's
+             result must be one of the results of C13.Model.filter_results over all rank assignments)
+     fn 10   terpene_analysis.filter_incomplete (gather_by_query sets sorted by query_start only)
+     fn 11   terpene_analysis.analyse_cluster end to end on the shipped profile properties (only run_terpene_hmmscan,
+             an external binary, is replaced): prediction JSON as written and in canonical forms
 
    Checks: (a) per case, the outputs of all children are identical (the property itself; a difference is a
    counterexample with the input and the two seeds, unless the input lies in a recorded finding class);
@@ -39,7 +45,9 @@ EV_UNIT = 1e-10
 FN_NAME = {1: "refine_hmmscan_results(neighbour_mode=True)", 2: "refine_hmmscan_results(neighbour_mode=False)",
            3: "run_on_record/detect_protoclusters_and_signatures (linear) + end-to-end dumps",
            4: "create_candidates_from_protoclusters", 5: "Region.get_unique_protoclusters",
-           6: "sorted set of str (CDSResults.to_json / enabled_types)", 7: "Feature.to_biopython (notes, qualifier keys)"}
+           6: "sorted set of str (CDSResults.to_json / enabled_types)", 7: "Feature.to_biopython (notes, qualifier keys)",
+           8: "CDSResults.annotate (CORE gene functions)", 9: "cluster_prediction.filter_results (identity-hashed hits)",
+           10: "terpene filter_incomplete", 11: "terpene analyse_cluster (prediction JSON)"}
 
 KNOWN_TEXT = {
     "unique_protoclusters_set_order":
@@ -55,7 +63,40 @@ KNOWN_TEXT = {
         "product with identical coordinates (neighbourhoods clipped at both ends of a short record) but different cores are "
         "listed inside a candidate cluster in set-iteration order, so the 'protoclusters' qualifier of the candidate and the "
         "areas JSON differ between runs",
+    "annotate_definition_domains_set_order":
+        "CDSResults.annotate adds the CORE gene functions of a gene in the iteration order of the Set[str] of definition "
+        "domains (string hashes): for a gene with two or more definition domains of one rule the gene_functions qualifier "
+        "of the CDS - hence the GenBank output - differs between runs with different PYTHONHASHSEED",
+    "filter_results_score_tie_set_order":
+        "cluster_prediction.filter_results starts the search for the best hit of a group of overlapping hits of competing "
+        "profiles from list(group)[0] of a set of identity-hashed HSP objects and replaces it only by a strictly better "
+        "bitscore: with tied bitscores the hit that is kept (so possibly the detected rule) depends on the memory layout",
+    "html_product_categories_set_order":
+        "outputs/html/js.py convert_regions emits list(region.product_categories) of a Set[str] in hash order: the regions "
+        "JSON of the HTML page differs between runs for a region with two or more product categories",
+    "unique_crossing_same_product_set_order":
+        "Region.get_unique_protoclusters, origin-crossing branch: the sort key ends with the product, so two protoclusters "
+        "with identical coordinates and product but different cores come out in set-iteration (memory layout) order; "
+        "serialiser.gather_record_areas numbers them in that order",
+    "terpene_start_tie_set_order":
+        "terpene_analysis.filter_incomplete sorts the gather_by_query sets by query_start only: hits of one gene with "
+        "equal query_start are handed to remove_incomplete (and on to the terpene predictions) in set-iteration order",
+    "terpene_subtypes_set_order":
+        "terpene_analysis.get_domain_prediction builds subtypes=tuple(subtypes) from a set[str]: the subtypes of a domain "
+        "prediction (terpene results JSON, HTML side panel) come out in PYTHONHASHSEED order when a group of overlapping hits "
+        "has two or more subtype profiles",
+    "terpene_reaction_intersection_set_order":
+        "terpene data_loader.Reaction.build_intersection returns tuple(set & set) over CompoundGroup objects (hashed by name): "
+        "substrates and products of merged reactions, and with them the products list of the cluster prediction, come out "
+        "in PYTHONHASHSEED order",
 }
+# where a difference between children may show for each class (dump names of the end-to-end stage)
+E2E_CLASS_DUMPS = {"annotate_definition_domains_set_order": {"gene_functions", "genbank", "js_regions",
+                                                             "js_regions_categories_sorted"},
+                   "html_product_categories_set_order": {"js_regions", "js_regions_descriptions_sorted"}}
+# the dump whose difference shows that the class (and not the other one) is at work
+E2E_CLASS_MARK = {"annotate_definition_domains_set_order": "gene_functions",
+                  "html_product_categories_set_order": "js_regions_descriptions_sorted"}
 
 
 def known_classes():
@@ -120,7 +161,22 @@ def gen_pipeline(rng):
         profs = sorted(r for r in range(n_rules) if rng.random() < 0.7)
         if profs:
             hits[name] = profs
-    return {"length": length, "rules": rules, "rule_names": rule_names, "genes": genes, "hits": hits}
+    # a second profile for some rules (CONDITIONS p or q): a gene hit by both has TWO definition domains for the rule;
+    # categories per rule (regions with several product categories)
+    second = [rng.random() < 0.45 for _ in range(n_rules)]
+    hits2 = {}
+    for name, profs in hits.items():
+        extra = sorted(r for r in range(n_rules) if second[r] and rng.random() < (0.8 if r in profs else 0.15))
+        if extra:
+            hits2[name] = extra
+    for name, _, _ in genes:
+        if name not in hits and rng.random() < 0.1:
+            extra = sorted(r for r in range(n_rules) if second[r])
+            if extra:
+                hits2[name] = extra
+    categories = [rng.choice(["c", "c", "NRPS", "PKS", "terpene", "RiPP"]) for _ in range(n_rules)]
+    return {"length": length, "rules": rules, "rule_names": rule_names, "genes": genes, "hits": hits,
+            "second": second, "hits2": hits2, "categories": categories}
 
 
 def gen_formation(rng):
@@ -187,12 +243,12 @@ def gen_unique(rng):
         if (start, end, product) in [tuple(p[:3]) for p in protos]:
             used = [tuple(p[3]) if p[3] else (p[0], p[1]) for p in protos if tuple(p[:3]) == (start, end, product)]
             free_cores = [(a, b) for a in range(start, end, grid) for b in range(a + grid, end + 1, grid)
-                          if (a, b) not in used] if start < end and not crossing else []
+                          if (a, b) not in used] if start < end else []
             if free_cores and rng.random() < 0.6:
                 # same coordinates and product, another core (two protoclusters of one rule whose neighbourhoods are
-                # clipped at both ends of a short record): separated by (core_start, core_end) since the repair; only in
-                # regions that do not cross the origin - the key of the origin-crossing branch ends with the product,
-                # see the guard of C17_unique_crossing_perm
+                # clipped at both ends of a short record): separated by (core_start, core_end) since the repair in
+                # regions that do not cross the origin; the key of the origin-crossing branch ends with the product
+                # (guard of C17_unique_crossing_perm; finding unique_crossing_same_product_set_order)
                 core = rng.choice(free_cores)
             else:
                 # indistinguishable protoclusters (same coordinates, product and core) do not come out of one detection run
@@ -228,7 +284,65 @@ def gen_notes(rng):
     return {"notes": notes, "keys": keys}
 
 
-GENERATORS = {1: gen_refine, 2: gen_refine, 3: gen_pipeline, 4: gen_formation, 5: gen_unique, 6: gen_strings, 7: gen_notes}
+DOMAINS = ["PKS_KS", "PKS_AT", "ACP", "a", "b", "ab", "p1", "p10", "p2", "Z", "z", "t1", "T1"]
+
+
+def gen_annotate(rng):
+    """ definition domains of one gene: 1-3 cluster types with 0-4 domains each """
+    types_ = rng.sample(["r1", "r10", "r2", "T1", "t1", "rab"], rng.choice([1, 1, 2, 3]))
+    return {"defs": [(t, rng.sample(DOMAINS, rng.choice([0, 1, 1, 2, 2, 3, 4]))) for t in types_]}
+
+
+def gen_filter(rng):
+    """ c13's generator of filter_results inputs, at most 5 hits per gene, with more score ties """
+    import c13
+    while True:
+        eqgs, order, cds = c13.gen_fr(rng)
+        if all(len(hits) <= 5 for hits in cds) and sum(len(hits) for hits in cds) <= 7 \
+                and all(h[2] < h[3] for hits in cds for h in hits):
+            break
+    if rng.random() < 0.5:
+        cds = [[(h[0], h[1], h[2], h[3], rng.choice([40, 40, 60]), h[5]) if rng.random() < 0.6 else h for h in hits]
+               for hits in cds]
+    return {"eqgs": eqgs, "order": order, "cds": cds}
+
+
+def gen_terpene(rng):
+    args = gen_refine(rng)
+    if rng.random() < 0.5 and args["hits"]:
+        # hits of OTHER profiles at the same start (complete ones too): the tie the start-only key does not break
+        base = rng.choice(args["hits"])
+        for _ in range(rng.choice([1, 2])):
+            prof = rng.randrange(len(args["table"]))
+            length = args["table"][prof][1]
+            end = base[2] + rng.choice([length, max(1, length // 2 + 1), max(1, length // 3), base[3] - base[2]])
+            args["hits"].append((base[0], prof, base[2], max(end, base[2] + 1), rng.choice([1, 2]), rng.choice([20, 40])))
+            args["split"].append(rng.randrange(max(args["split"]) + 1))
+    return args
+
+
+TERPENE_FAMILIES = [["PT_FPPS_like", "PT_noFPP_bact", "PT_FPP_bact", "PT_GFPP", "PT_GGPP", "TS_UbiA"],
+                    ["PT_phytoene_like", "phytoene_synt", "PT_PSPP", "PT_squalene", "PT_diapophytoene"],
+                    ["T1TS", "T1TS_III-IV_a", "T1TS_III-IV_b", "T1TS_III-IV_c", "T1TS_IV-V_b", "T1TS_GERAS"],
+                    ["T2TS", "T2TS_C15_a", "T2TS_C20", "Lycopene_cycl"]]
+
+
+def gen_terpene_e2e(rng):
+    """ 1-2 genes with 1-4 hits of related real terpene profiles: equal / close starts (one overlap group), complete and
+        fragmentary lengths, scores above and below the cutoffs """
+    hits = []
+    for gene in range(rng.choice([1, 1, 2])):
+        family = rng.choice(TERPENE_FAMILIES)
+        base = rng.choice([5, 10, 40])
+        for prof in rng.sample(family, rng.choice([1, 2, 2, 3, 3, 4])):
+            start = base + rng.choice([0, 0, 2, 4, 30])
+            end = start + rng.choice([120, 120, 250, 290, 320, 420])
+            hits.append([f"g{gene}", prof, start, end, 1e-50, rng.choice([400.0, 400.0, 400.0, 150.0, 30.0])])
+    return {"hits": hits}
+
+
+GENERATORS = {1: gen_refine, 2: gen_refine, 3: gen_pipeline, 4: gen_formation, 5: gen_unique, 6: gen_strings, 7: gen_notes,
+              8: gen_annotate, 9: gen_filter, 10: gen_terpene, 11: gen_terpene_e2e}
 
 
 # ====================================================================== child: the real code
@@ -289,12 +403,21 @@ def child_pipeline(_fn, args, _rng, _keep):
     from antismash.common import json as asjson
     from antismash.detection import hmm_detection
     length, rules, names, genes, hits = args["length"], args["rules"], args["rule_names"], args["genes"], args["hits"]
-    text = "\n".join(f"RULE {names[i]} CATEGORY c CUTOFF {c // 1000} NEIGHBOURHOOD {nb // 1000} CONDITIONS p{i}"
-                     for i, (c, nb) in enumerate(rules))
-    profiles = [f"p{i}" for i in range(len(rules))]
+    second = args.get("second") or [False] * len(rules)
+    hits2 = args.get("hits2") or {}
+    categories = args.get("categories") or ["c"] * len(rules)
+    text = "\n".join(f"RULE {names[i]} CATEGORY {categories[i]} CUTOFF {c // 1000} NEIGHBOURHOOD {nb // 1000} CONDITIONS "
+                     + (f"p{i} or q{i}" if second[i] else f"p{i}") for i, (c, nb) in enumerate(rules))
+    profiles = [f"p{i}" for i in range(len(rules))] + [f"q{i}" for i in range(len(rules)) if second[i]]
+    gene_profiles = {}
+    for name, _iv, _st in genes:
+        found = {f"p{i}" for i in hits.get(name, ())} | {f"q{i}" for i in hits2.get(name, ()) if second[i]}
+        if found:
+            gene_profiles[name] = found
     flat = [PROP, 3, length, len(rules)]
     for i, (c, nb) in enumerate(rules):
-        anchors = [(int(name[1:]), iv) for name, iv, _ in genes if i in hits.get(name, ())]
+        anchors = [(int(name[1:]), iv) for name, iv, _ in genes
+                   if i in hits.get(name, ()) or (second[i] and i in hits2.get(name, ()))]
         flat += [c, nb, len(anchors)] + [x for gid, iv in anchors for x in (gid, iv[0], iv[1])]
     dumps = {}
     pairs = []
@@ -303,7 +426,7 @@ def child_pipeline(_fn, args, _rng, _keep):
         record.id = "rec"
         record.name = "rec"
         record.record_index = 1
-        ruleset = detect_util.make_ruleset(text, profiles, {g: {f"p{i}" for i in ps} for g, ps in hits.items()})
+        ruleset = detect_util.make_ruleset(text, profiles, gene_profiles, categories=tuple(sorted(set(categories))))
         original = hmm_detection.get_ruleset
         hmm_detection.get_ruleset = lambda _options: ruleset
         try:
@@ -352,6 +475,38 @@ def child_pipeline(_fn, args, _rng, _keep):
         buf = io.StringIO()
         SeqIO.write([record.to_biopython()], buf, "genbank")
         dumps["genbank"] = buf.getvalue()
+        # gene functions (run_on_record has annotated the CDS features): the qualifier as written, and the GenBank text
+        # with every gene_functions qualifier sorted (must be identical across children whatever the findings)
+        dumps["gene_functions"] = [(cds.get_name(), cds.to_biopython()[0].qualifiers.get("gene_functions"))
+                                   for cds in record.get_cds_features()]
+        bio = record.to_biopython()
+        for feature in bio.features:
+            if "gene_functions" in feature.qualifiers:
+                feature.qualifiers["gene_functions"] = sorted(feature.qualifiers["gene_functions"])
+        buf = io.StringIO()
+        SeqIO.write([bio], buf, "genbank")
+        dumps["genbank_gene_functions_sorted"] = buf.getvalue()
+        # the regions JSON of the HTML page
+        # (the gene functions also appear, in qualifier order, in the description of every gene): as written, with the
+        # product categories sorted, with the <br>-separated pieces of the gene descriptions sorted, and with both -
+        # the last one must be identical across children whatever the findings
+        dumps["_class_multi_domain"] = any(len(members) >= 2 for cds_result in all_cds_results
+                                           for members in cds_result.definition_domains.values())
+        dumps["_class_multi_category"] = any(len(region.product_categories) >= 2 for region in record.get_regions())
+        # (convert_regions compiles a jinja template per gene, 50 ms each: run on a third of the records - a deterministic
+        # function of the input, the same in every child)
+        if (length + len(genes)) % 3 == 0:
+            regions_js = js_regions(record)
+            dumps["js_regions"] = json.dumps(regions_js)
+            sorted_categories = json.loads(dumps["js_regions"])
+            for region in sorted_categories:
+                region["product_categories"] = sorted(region["product_categories"])
+            dumps["js_regions_categories_sorted"] = json.dumps(sorted_categories)
+            for variant, key in ((regions_js, "js_regions_descriptions_sorted"), (sorted_categories, "js_regions_both_sorted")):
+                for region in variant:
+                    for orf in region.get("orfs", []):
+                        orf["description"] = "<br>".join(sorted(str(orf.get("description", "")).split("<br>")))
+                dumps[key] = json.dumps(variant)
         # class tests for the recorded findings
         tied_unique = False
         for region in record.get_regions():
@@ -369,7 +524,195 @@ def child_pipeline(_fn, args, _rng, _keep):
     return pairs, dumps
 
 
+_JS_OPTIONS = []
+
+
+def js_regions(record):
+    """ outputs/html/js.py convert_regions on the record (no module results) """
+    from antismash.outputs.html import js
+    if not _JS_OPTIONS:
+        from antismash.config import build_config, update_config
+        from antismash.outputs import html
+        _JS_OPTIONS.append(build_config([], isolated=True, modules=[html]))
+        update_config({"all_enabled_modules": []})
+    return js.convert_regions(record, _JS_OPTIONS[0], {})
+
+
+def child_annotate(_fn, args, _rng, _keep):
+    from antismash.common.hmm_rule_parser.cluster_prediction import CDSResults
+    from antismash.common.secmet.qualifiers import SecMetQualifier, GeneFunction
+    from antismash.common.secmet.test.helpers import DummyCDS
+    defs = {}
+    for ctype, domains in args["defs"]:
+        members = set()
+        for domain in domains:
+            members.add(domain)
+        defs[ctype] = members
+    observed = [(ctype, list(members)) for ctype, members in defs.items()]
+    cds = DummyCDS(locus_tag="x")
+    result = CDSResults(cds, [SecMetQualifier.Domain("zz_other", 1e-10, 50., 10, "tool")], defs)
+    result.annotate("tool")
+    core = [(f.description, f.product) for f in cds.gene_functions if f.function == GeneFunction.CORE]
+    flat = [PROP, 8, len(observed)]
+    for ctype, members in observed:
+        flat += enc_str(ctype) + enc_strs(members)
+    out = [len(core)]
+    for domain, ctype in core:
+        out += enc_str(domain) + enc_str(ctype)
+    return [(flat, out)], {"qualifier": cds.to_biopython()[0].qualifiers.get("gene_functions")}
+
+
+class LaidOutHit:  # pylint: disable=too-few-public-methods
+    """ stand-in for Bio's HSP as filter_results uses it: identity equality AND identity hash """
+    def __init__(self, hid, prof, start, end, score):
+        self.hid = hid
+        self.query_id = f"prof{prof:02d}"
+        self.hit_start = start
+        self.hit_end = end
+        self.bitscore = score / 2
+
+
+def child_filter(_fn, args, rng, keep):
+    from antismash.common.hmm_rule_parser import cluster_prediction as cp
+    eqgs, order, cds = args["eqgs"], args["order"], args["cds"]
+    specs = {hit[0]: hit for hits in cds for hit in hits}
+    creation = list(specs)
+    rng.shuffle(creation)
+    objs = {}
+    for hid in creation:
+        perturb(rng, keep)
+        _h, prof, start, end, score, _rank = specs[hid]
+        objs[hid] = LaidOutHit(hid, prof, start, end, score)
+    by_id = {f"c{i:03d}": [objs[hit[0]] for hit in hits] for i, hits in enumerate(cds)}
+    results = [objs[h] for h in order]
+    groups = [set(f"prof{p:02d}" for p in group) for group in eqgs]
+    try:
+        results, by_id = cp.filter_results(results, by_id, groups)
+        out = [0, len(results)] + [h.hid for h in results] + [len(by_id)]
+        for key in sorted(by_id):
+            out += [len(by_id[key])] + [h.hid for h in by_id[key]]
+    except Exception as exc:  # pylint: disable=broad-except
+        out = [1, err_code(exc)]
+    return [], {"kept": out}
+
+
+def child_terpene(_fn, args, _rng, _keep):
+    import c13
+    from antismash.common.hmmscan_refinement import gather_by_query
+    from antismash.modules.terpene import terpene_analysis
+    table, hits, split = args["table"], [tuple(h) for h in args["hits"]], args["split"]
+    names = [c13.prof_name(i, reg) for i, (_p, _l, reg) in enumerate(table)]
+    index = {n: i for i, n in enumerate(names)}
+    lengths = {names[i]: length for i, (present, length, _r) in enumerate(table) if present}
+
+    def scan():
+        nres = max(split) + 1 if split else 0
+        results = [types.SimpleNamespace(hsps=[]) for _ in range(nres)]
+        for (gene, prof, start, end, evalue, score), where in zip(hits, split):
+            results[where].hsps.append(types.SimpleNamespace(query_id=f"g{gene:03d}", hit_id=names[prof], query_start=start,
+                                                             query_end=end, evalue=evalue * EV_UNIT, bitscore=score / 2))
+        return results
+    observed = []
+    for gene, members in gather_by_query(scan()).items():
+        for hit in list(members):
+            observed.append((int(gene[1:]), index[hit.hit_id], hit.query_start, hit.query_end,
+                             round(hit.evalue / EV_UNIT), int(hit.bitscore * 2)))
+    flat = [PROP, 10, len(table)]
+    for entry in table:
+        flat += [int(entry[0]), entry[1], int(entry[2])]
+    flat.append(len(observed))
+    for hit in observed:
+        flat += list(hit)
+    try:
+        refined = terpene_analysis.filter_incomplete(scan(), lengths)
+        out = [0, len(refined)]
+        for gene in sorted(refined):
+            out += [int(gene[1:]), len(refined[gene])]
+            for hit in refined[gene]:
+                out += [index[hit.hit_id], hit.query_start, hit.query_end, round(hit.evalue / EV_UNIT), int(hit.bitscore * 2)]
+    except Exception as exc:  # pylint: disable=broad-except
+        out = [1, err_code(exc)]
+    return [(flat, out)], {}
+
+
+def terpene_canonical(as_json):
+    """ the prediction JSON with exactly the order effects of the recorded terpene findings undone: subtypes sorted
+        (terpene_subtypes_set_order); substrates / products of every reaction and the top level products list sorted
+        (terpene_reaction_intersection_set_order; the data-file order of unmerged reactions is fixed, sorting hides
+        nothing else); the reactions list of a domain and the domain list of a gene sorted (their order follows the order of
+        the group's hits = the tie order of filter_incomplete, terpene_start_tie_set_order) """
+    out = {"cds_predictions": {}, "products": sorted(as_json.get("products", []))}
+    for cds, domains in as_json["cds_predictions"].items():
+        new_domains = []
+        for domain in domains:
+            new = dict(domain)
+            new["subtypes"] = sorted(domain["subtypes"])
+            if "reactions" in domain:
+                reactions = [{"substrates": sorted(r["substrates"]), "products": sorted(r["products"])}
+                             for r in domain["reactions"]]
+                new["reactions"] = sorted(reactions, key=lambda r: (r["substrates"], r["products"]))
+            new_domains.append(new)
+        new_domains.sort(key=lambda d: (d["start"], d["end"], d["domain_type"], d["subtypes"],
+                                        json.dumps(d.get("reactions", []))))
+        out["cds_predictions"][cds] = new_domains
+    return out
+
+
+def child_terpene_e2e(_fn, args, _rng, _keep):
+    from antismash.common.secmet.test.helpers import DummyProtocluster
+    from antismash.modules.terpene import terpene_analysis
+    from antismash.modules.terpene.data_loader import load_hmm_properties, load_hmm_lengths
+    hits = args["hits"]
+    by_gene = {}
+    for gene, prof, start, end, evalue, score in hits:
+        by_gene.setdefault(gene, []).append(types.SimpleNamespace(query_id=gene, hit_id=prof, query_start=start,
+                                                                  query_end=end, evalue=evalue, bitscore=score))
+    scan = [types.SimpleNamespace(id=gene, hsps=hsps) for gene, hsps in by_gene.items()]
+    cluster = DummyProtocluster(start=0, end=3000, core_start=100, core_end=200, product="terpene",
+                                product_category="terpene")
+    original = terpene_analysis.run_terpene_hmmscan
+    terpene_analysis.run_terpene_hmmscan = lambda _cds_features: scan
+    try:
+        as_json = terpene_analysis.analyse_cluster(cluster).to_json()
+    except Exception as exc:  # pylint: disable=broad-except
+        return [], {"error": type(exc).__name__ + ": " + str(exc)[:200]}
+    finally:
+        terpene_analysis.run_terpene_hmmscan = original
+    dumps = {"terpene_raw": json.dumps(as_json, sort_keys=True),
+             "terpene_canon": json.dumps(terpene_canonical(as_json), sort_keys=True),
+             "terpene_subtypes": [[d["subtypes"] for d in ds] for _cds, ds in sorted(as_json["cds_predictions"].items())],
+             # tuples as written, the LIST of reactions sorted (its order belongs to the filter_incomplete class)
+             "terpene_reaction_tuples": [[sorted((r["substrates"], r["products"]) for r in d.get("reactions", [])) for d in ds]
+                                         for _cds, ds in sorted(as_json["cds_predictions"].items())]
+                                        + [as_json.get("products", [])]}
+    starts = {}
+    tie = False
+    for gene, _prof, start, *_rest in hits:
+        seen = starts.setdefault(gene, set())
+        tie = tie or start in seen
+        seen.add(start)
+    dumps["_f5"] = tie
+    dumps["_f6"] = any(len(d["subtypes"]) >= 2 for ds in as_json["cds_predictions"].values() for d in ds)
+    props = load_hmm_properties()
+    refined = terpene_analysis.filter_by_score(terpene_analysis.filter_incomplete(scan, load_hmm_lengths(props)), props)
+    merged = False
+    for results in refined.values():
+        for group in terpene_analysis.group_hmm_results(results):
+            profiles = [props[h.hit_id] for h in group]
+            if sum(1 for prof in profiles if prof.reactions) >= 2:
+                for reaction in terpene_analysis.merge_reactions_by_substrate(profiles):
+                    merged = merged or len(reaction.substrates) >= 2 or len(reaction.products) >= 2
+    dumps["_f7"] = merged
+    return [], dumps
+
+
 def child_formation(_fn, args, rng, keep):
+    """ (a) real identity-hashed Protoclusters created in a permuted order between allocations: compared with the model at
+        the ascending-id enumeration (fn 4) - whatever order the sets really had;
+        (b) the same configuration with Protoclusters whose hash is ((id + 1) * a) mod 7 (all ids <= 6: distinct values
+        below the smallest set table size, so CPython iterates every set in ascending hash): the enumeration
+        FO.en_hash a 0 7 of the model, compared with fn 15 - ties the model to the code at enumerations OTHER than
+        ascending id, at every site where the model says a set is iterated """
     import c05
     from antismash.common.secmet.features import Protocluster
     from antismash.common.secmet.features.candidate_cluster import formation
@@ -383,39 +726,56 @@ def child_formation(_fn, args, rng, keep):
         """ a real Protocluster (identity hash) that remembers its number in the configuration """
         __slots__ = ["vid"]
 
-    record = cls["Record"](seq="A" * config["n"], circular=config["circular"])
-    genes = {}
-    for gid, parts, products in config["genes"]:
-        cds = cls["CDS"](location=c05.mk_loc(parts), locus_tag=f"g{gid}")
-        for prod in products:
-            cds.gene_functions.add(cls["GF"].CORE, "tool", "desc", c05.product_name(prod))
-        record.add_cds_feature(cds)
-        genes[gid] = cds
-    creation = list(range(len(config["protos"])))
-    rng.shuffle(creation)
-    made = {}
-    for i in creation:
-        perturb(rng, keep)
-        pid, extent, core, prod = config["protos"][i]
-        proto = LaidOutProtocluster(c05.mk_loc(core), c05.mk_loc(extent), tool="t", product=c05.product_name(prod),
-                                    cutoff=1, neighbourhood_range=0, detection_rule="r")
-        proto.vid = pid
-        made[i] = proto
-    protos = [made[i] for i in range(len(config["protos"]))]
-    for proto in protos:
-        record.add_protocluster(proto)
-    gid_of = {id(cds): gid for gid, cds in genes.items()}
-    defs = [sorted(gid_of[id(cds)] for cds in proto.definition_cdses) for proto in protos]
-    wrap = config["n"] if config["circular"] else None
-    flat = c05.flat_direct(config, order, defs)
-    flat[0], flat[1] = PROP, 4
-    try:
-        cands = common.call_with_timeout(
-            lambda: formation.create_candidates_from_protoclusters([protos[i] for i in order], circular_wrap_point=wrap), 10)
-        out = c05.enc_cands(cands)
-    except Exception as exc:  # pylint: disable=broad-except
-        out = [1, err_code(exc)]
-    return [(flat, out)], {}
+    class ScrambledProtocluster(Protocluster):  # pylint: disable=too-few-public-methods
+        """ a Protocluster whose hash is chosen (identity equality as ever) """
+        __slots__ = ["vid", "chosen_hash"]
+
+        def __hash__(self):
+            return self.chosen_hash
+
+    def run(proto_class, chosen_hash):
+        record = cls["Record"](seq="A" * config["n"], circular=config["circular"])
+        genes = {}
+        for gid, parts, products in config["genes"]:
+            cds = cls["CDS"](location=c05.mk_loc(parts), locus_tag=f"g{gid}")
+            for prod in products:
+                cds.gene_functions.add(cls["GF"].CORE, "tool", "desc", c05.product_name(prod))
+            record.add_cds_feature(cds)
+            genes[gid] = cds
+        creation = list(range(len(config["protos"])))
+        rng.shuffle(creation)
+        made = {}
+        for i in creation:
+            perturb(rng, keep)
+            pid, extent, core, prod = config["protos"][i]
+            proto = proto_class(c05.mk_loc(core), c05.mk_loc(extent), tool="t", product=c05.product_name(prod),
+                                cutoff=1, neighbourhood_range=0, detection_rule="r")
+            proto.vid = pid
+            if chosen_hash is not None:
+                proto.chosen_hash = chosen_hash(pid)
+            made[i] = proto
+        protos = [made[i] for i in range(len(config["protos"]))]
+        for proto in protos:
+            record.add_protocluster(proto)
+        gid_of = {id(cds): gid for gid, cds in genes.items()}
+        defs = [sorted(gid_of[id(cds)] for cds in proto.definition_cdses) for proto in protos]
+        wrap = config["n"] if config["circular"] else None
+        flat = c05.flat_direct(config, order, defs)
+        flat[0], flat[1] = PROP, 4
+        try:
+            cands = common.call_with_timeout(
+                lambda: formation.create_candidates_from_protoclusters([protos[i] for i in order], circular_wrap_point=wrap), 10)
+            out = c05.enc_cands(cands)
+        except Exception as exc:  # pylint: disable=broad-except
+            out = [1, err_code(exc)]
+        return flat, out
+    flat, out = run(LaidOutProtocluster, None)
+    pairs = [(flat, out)]
+    if all(0 <= pid <= 6 for pid, _e, _c, _q in config["protos"]):
+        for mult in (3, 5):
+            flat_h, out_h = run(ScrambledProtocluster, lambda pid, mult=mult: ((pid + 1) * mult) % 7)
+            pairs.append(([PROP, 15, mult, 0, 7] + flat_h[2:], out_h))
+    return pairs, {}
 
 
 def child_unique(_fn, args, rng, keep):
@@ -509,7 +869,7 @@ def child_notes(_fn, args, rng, _keep):
 
 
 CHILD = {1: child_refine, 2: child_refine, 3: child_pipeline, 4: child_formation, 5: child_unique, 6: child_strings,
-         7: child_notes}
+         7: child_notes, 8: child_annotate, 9: child_filter, 10: child_terpene, 11: child_terpene_e2e}
 
 
 def child_main(case_path, out_path, layout):
@@ -521,6 +881,8 @@ def child_main(case_path, out_path, layout):
     from antismash.common import serialiser, json as _asjson  # noqa: F401  pylint: disable=unused-import
     from antismash.detection import hmm_detection  # noqa: F401  pylint: disable=unused-import
     from antismash.common.secmet.features import Protocluster, CandidateCluster, Region, Feature  # noqa: F401  pylint: disable=unused-import
+    from antismash.modules.terpene import terpene_analysis  # noqa: F401  pylint: disable=unused-import
+    from antismash.outputs.html import js  # noqa: F401  pylint: disable=unused-import
     c05.classes()
     keep = []
     results = []
@@ -575,8 +937,8 @@ def run_children(cases, seeds, jobs=6):
 
 def plan(tier):
     if tier == "quick":
-        return {1: 1200, 2: 1200, 3: 350, 4: 800, 5: 900, 6: 500, 7: 300}, [0, 1, 2, 3, 4, 5]
-    return {1: 6000, 2: 6000, 3: 1800, 4: 4500, 5: 4500, 6: 2000, 7: 1200}, list(range(0, 18))
+        return {1: 600, 2: 600, 3: 250, 4: 600, 5: 700, 6: 400, 7: 300, 8: 300, 9: 250, 10: 400, 11: 150}, [0, 1, 2, 3, 4, 5]
+    return {1: 6000, 2: 6000, 3: 1500, 4: 4500, 5: 4500, 6: 2000, 7: 1200, 8: 1200, 9: 1500, 10: 2500, 11: 600}, list(range(0, 18))
 
 
 # the fixed witnesses of the findings C17-K1..K3 (all three repaired in the code; regression corpus, run first, every time)
@@ -604,7 +966,55 @@ WITNESS_SINGLES_SAME_PRODUCT = {"fn": 4, "args": {"config": {"n": 400, "circular
                                                                         (1, [(100, 200, 1)], [(170, 180, 1)], 0),
                                                                         (2, [(150, 300, 1)], [(250, 260, 1)], 2)]},
                                                   "order": [0, 1, 2]}}
-WITNESSES = [WITNESS_UNIQUE, WITNESS_SINGLES, WITNESS_SAME_PRODUCT, WITNESS_UNIQUE_CORE, WITNESS_SINGLES_SAME_PRODUCT]
+# witnesses of the findings still present in the code (status known): C17-K4 .. C17-K8
+WITNESS_ANNOTATE = {"fn": 8, "args": {"defs": [["r1", ["PKS_KS", "PKS_AT", "ACP"]], ["t1", ["a", "b"]]]}}
+WITNESS_ANNOTATE_E2E = {"fn": 3, "args": {
+    "length": 9000, "rules": [[5000, 1000], [5000, 1000]], "rule_names": ["r1", "t1"],
+    "genes": [["g0", [1000, 1900], 1], ["g1", [3000, 3600], 1], ["g2", [7000, 7300], -1]],
+    "hits": {"g0": [0, 1], "g1": [0]}, "second": [True, True], "hits2": {"g0": [0, 1], "g1": [0]}, "categories": ["c", "c"]}}
+WITNESS_JS_CATEGORIES = {"fn": 3, "args": {
+    "length": 9000, "rules": [[5000, 1000], [5000, 1000], [5000, 1000]], "rule_names": ["ra", "rb", "rc"],
+    "genes": [["g0", [1000, 1900], 1], ["g1", [3000, 3600], 1], ["g2", [5000, 5600], 1]],
+    "hits": {"g0": [0], "g1": [1], "g2": [2]}, "second": [False, False, False], "hits2": {},
+    "categories": ["NRPS", "PKS", "terpene"]}}
+WITNESS_FILTER_TIE = {"fn": 9, "args": {"eqgs": [[0, 1]], "order": [0, 1, 2],
+                                        "cds": [[[0, 0, 10, 200, 100, 0], [1, 1, 10, 200, 100, 1], [2, 1, 300, 400, 80, 2]]]}}
+WITNESS_UNIQUE_CROSSING = {"fn": 5, "args": {"n": 1000, "crossing": True,
+                                             "protos": [(900, 100, 0, (950, 980)), (900, 100, 0, (20, 60)),
+                                                        (900, 100, 0, (960, 990))],
+                                             "groups": [[0, 1, 2]]}}
+WITNESS_TERPENE = {"fn": 10, "args": {"table": [[1, 30, 0], [1, 50, 0], [1, 40, 0]],
+                                      "hits": [[0, 0, 5, 40, 1, 20], [0, 1, 5, 60, 1, 20], [0, 2, 5, 50, 1, 20]],
+                                      "split": [0, 0, 0]}}
+WITNESS_TERPENE_PREDICTION = {"fn": 11, "args": {"hits": [["g1", "PT_FPPS_like", 10, 130, 1e-30, 150.0],
+                                                         ["g1", "TS_UbiA", 10, 130, 1e-30, 150.0]]}}
+WITNESS_TERPENE_SUBTYPES = {"fn": 11, "args": {"hits": [["g1", "T1TS_III-IV_a", 10, 330, 1e-50, 400.0],
+                                                       ["g1", "T1TS_III-IV_c", 12, 330, 1e-50, 400.0],
+                                                       ["g1", "T1TS_III-IV_b", 14, 330, 1e-50, 400.0]]}}
+WITNESS_TERPENE_REACTIONS = {"fn": 11, "args": {"hits": [["g1", "PT_FPPS_like", 10, 290, 1e-50, 400.0],
+                                                        ["g1", "PT_noFPP_bact", 12, 260, 1e-50, 400.0]]}}
+WITNESSES = [WITNESS_UNIQUE, WITNESS_SINGLES, WITNESS_SAME_PRODUCT, WITNESS_UNIQUE_CORE, WITNESS_SINGLES_SAME_PRODUCT,
+             WITNESS_ANNOTATE, WITNESS_ANNOTATE_E2E, WITNESS_JS_CATEGORIES, WITNESS_FILTER_TIE, WITNESS_UNIQUE_CROSSING,
+             WITNESS_TERPENE, WITNESS_TERPENE_PREDICTION, WITNESS_TERPENE_SUBTYPES, WITNESS_TERPENE_REACTIONS]
+
+
+def filter_model_outputs(fr_cases):
+    """ fr_cases: {case index: args of fn 9}; -> {case index: set of results (tuples) of C13.Model.filter_results over all
+        assignments of set-iteration ranks to the hits of each gene} """
+    import c13
+    flats, owner = [], []
+    for idx, args in fr_cases.items():
+        eqgs, order, cds = args["eqgs"], args["order"], args["cds"]
+        per_gene = [list(itertools.permutations(range(len(hits)))) for hits in cds]
+        for choice in itertools.product(*per_gene):
+            variant = [[tuple(hit[:5]) + (ranks[j],) for j, hit in enumerate(hits)] for hits, ranks in zip(cds, choice)]
+            flats.append(c13.enc_fr(eqgs, order, variant))
+            owner.append(idx)
+    outs = common.run_driver(flats)
+    table = {idx: set() for idx in fr_cases}
+    for idx, out in zip(owner, outs):
+        table[idx].add(tuple(out))
+    return table, len(flats)
 
 
 def formation_ties(config):
@@ -645,21 +1055,32 @@ def only_tied_singles_moved(a, b):
     return sorted(ca) == sorted(cb)
 
 
-RULE = ("every case runs in child processes with PYTHONHASHSEED = 0..5 (quick) / 0..19 (thorough), each child also creating "
+RULE = ("every case runs in child processes with PYTHONHASHSEED = 0..5 (quick) / 0..17 (thorough), each child also creating "
         "the objects that land in identity-hashed sets in its own permuted order between random allocations (other addresses "
         "= other set order); inputs rich in ties: refinement hits with equal starts / ends / scores / e-values and duplicated "
-        "fragments (generator of C13 plus equal-start clones), linear records with 1-4 rules (names chosen so that string order "
-        "differs from numeric and case order) and genes on both strands incl. pairs with identical coordinates and equal starts, "
-        "gaps on the cutoff boundaries, run end to end (run_on_record, add_protocluster, create_candidate_clusters, "
-        "create_regions, hmm_detection JSON, areas JSON, GenBank text); candidate formation on the C05 configurations (linear "
-        "and circular without origin-crossing areas) with extra identical-coordinate protoclusters of different products, real "
-        "identity-hashed Protocluster objects; regions built directly from candidate clusters (1-6 protoclusters, identical "
-        "coordinates, equal starts, origin-crossing regions with bridging protoclusters); sets of rule/profile-like strings "
-        "(prefixes, case, digits, empty); notes and qualifier keys in a per-child arrival order.  Per case: all children "
-        "must agree (the property), each child's output must equal the model at the order that child observed, and fn 105 "
-        "checks the documented order of get_unique_protoclusters.  non-trivial = the case contains a tie (two elements "
-        "that the stage's sort key has to separate, or a duplicated element) or at least two elements in a hashed set; "
-        "distinct by the flat encoding of the hash-seed-0 child")
+        "fragments (generator of C13 plus equal-start clones), also through terpene filter_incomplete (plus complete hits of "
+        "other profiles at the same start); filter_results on identity-hashed hit objects (generator of C13, at most 5 hits "
+        "per gene, many bitscore ties; every child's result must be a result of C13.Model.filter_results for SOME rank "
+        "assignment, all assignments enumerated); CDSResults.annotate with 1-3 cluster types of 0-4 definition domains; "
+        "linear records with 1-4 rules (names chosen so that string order differs from numeric and case order; 45% of the "
+        "rules with a second profile `p or q` so that genes get two definition domains; categories c/NRPS/PKS/terpene/RiPP) "
+        "and genes on both strands incl. pairs with identical coordinates and equal starts, gaps on the cutoff boundaries, "
+        "run end to end (run_on_record incl. annotate_cds_features, add_protocluster, create_candidate_clusters, "
+        "create_regions, hmm_detection JSON, areas JSON, GenBank text as written and with sorted gene_functions qualifiers, "
+        "gene_functions qualifiers, regions JSON of the HTML page (js.convert_regions; on a third of the records) "
+        "as written / with sorted categories / with sorted description pieces / both); candidate "
+        "formation on the C05 configurations (linear and circular without origin-crossing areas) with extra "
+        "identical-coordinate protoclusters of different products, real identity-hashed Protocluster objects, and again with "
+        "hashes ((id+1)*a mod 7, a = 3, 5) that force a scrambled iteration order of every set, compared with the model at "
+        "that enumeration; the formation model itself evaluated at descending and three scrambled enumerations of every set; "
+        "regions built directly from candidate clusters (1-6 protoclusters, identical coordinates, equal starts, "
+        "origin-crossing regions with bridging protoclusters, same product and coordinates with other cores in both "
+        "branches); sets of rule/profile-like strings (prefixes, case, digits, empty); notes and qualifier keys in a per-child "
+        "arrival order.  Per case: all children must agree (the property; a difference inside a recorded finding class is "
+        "counted and printed as KNOWN-FINDING, anything else is a counterexample), each child's output must equal the model at "
+        "the order that child observed, and fn 105 checks the documented order of get_unique_protoclusters.  non-trivial = the "
+        "case contains a tie (two elements that the stage's sort key has to separate, or a duplicated element) or at least "
+        "two elements in a hashed set; distinct by the flat encoding of the hash-seed-0 child")
 
 
 def nontrivial(case, flat):
@@ -675,6 +1096,15 @@ def nontrivial(case, flat):
         return len(args["protos"]) >= 2
     if fn == 6:
         return len(set(args["words"])) >= 2
+    if fn == 8:
+        return any(len(set(domains)) >= 2 for _t, domains in args["defs"])
+    if fn == 9:
+        return any(len(hits) >= 2 for hits in args["cds"])
+    if fn == 10:
+        starts = [(h[0], h[2]) for h in args["hits"]]
+        return len(set(starts)) != len(starts)
+    if fn == 11:
+        return len(args["hits"]) >= 2
     return len(args["notes"]) >= 2 or len(args["keys"]) >= 2
 
 
@@ -702,6 +1132,9 @@ def run(chk):
     chk.extra["hash_seeds"] = seeds
     flat_cases, impl_outs, origin = [], [], []
     reproduced = set()
+    # fn 9: what the model of filter_results returns over ALL layouts (rank assignments) of every case
+    fr_models, fr_evals = filter_model_outputs({idx: case["args"] for idx, case in enumerate(cases) if case["fn"] == 9})
+    chk.extra["filter_results_model_evaluations_over_all_layouts"] = fr_evals
     for idx, case in enumerate(cases):
         fn = case["fn"]
         per_seed = [outs[s][idx] for s in seeds]
@@ -718,6 +1151,23 @@ def run(chk):
         # ---- (a) the property: all children agree
         base = per_seed[0]
         first_flat = base["pairs"][0][0] if base["pairs"] else [PROP, fn]
+        if fn == 11:
+            first_flat = [PROP, 11] + [int(hashlib.sha1(json.dumps(case["args"]).encode()).hexdigest()[:12], 16)]
+        if fn == 9:
+            import c13
+            first_flat = [PROP, 9] + c13.enc_fr(case["args"]["eqgs"], case["args"]["order"],
+                                                [[tuple(h) for h in hits] for hits in case["args"]["cds"]])[2:]
+            # correspondence by membership: every child's result is one of the model's results over all layouts
+            for seed, res in zip(seeds, per_seed):
+                kept = tuple(res["extra"].get("kept", ()))
+                chk.count("filter_results_child_results_checked_for_membership")
+                if kept not in fr_models[idx]:
+                    chk.violation("broken-correspondence", "filter_results on identity-hashed hits returns a result that "
+                                  "C13.Model.filter_results gives for NO assignment of set-iteration ranks",
+                                  {"theorem_or_correspondence": "model vs implementation / " + FN_NAME[9], "function": 9,
+                                   "input": case, "hash_seed": seed, "implementation": list(kept),
+                                   "model_over_all_layouts": sorted(fr_models[idx])[:6]})
+                    break
         chk.note_case(first_flat, nontrivial(case, first_flat),
                       {"function": FN_NAME[fn], "input": case["args"], "hash_seeds": seeds,
                        "implementation_seed0": [p[1] for p in base["pairs"]][:2]})
@@ -730,13 +1180,67 @@ def run(chk):
                 continue
             differing = [k for k in sorted(set(dumps_a) | set(dumps_b)) if dumps_a.get(k) != dumps_b.get(k)]
             klass = None
-            if fn == 5 and not base["extra"].get("crossing") \
+            e2e = []
+            if fn == 3 and outputs_a == outputs_b:
+                if base["extra"].get("_class_multi_domain") or res["extra"].get("_class_multi_domain"):
+                    e2e.append("annotate_definition_domains_set_order")
+                if base["extra"].get("_class_multi_category") or res["extra"].get("_class_multi_category"):
+                    e2e.append("html_product_categories_set_order")
+                e2e = [k for k in e2e if E2E_CLASS_MARK[k] in differing]
+                allowed = set().union(*[E2E_CLASS_DUMPS[k] for k in e2e]) if e2e else set()
+                if not (e2e and set(differing) <= allowed):
+                    e2e = []
+            if fn == 11:
+                flags = {f: bool(base["extra"].get(f) or res["extra"].get(f)) for f in ("_f5", "_f6", "_f7")}
+                canon_moves = "terpene_canon" in differing
+                needed, attributable = [], "error" not in differing
+                if canon_moves or differing == ["terpene_raw"]:
+                    # another fragment survives remove_incomplete / another order of the group's hits: only with a start tie
+                    if flags["_f5"]:
+                        needed.append("terpene_start_tie_set_order")
+                    else:
+                        attributable = False
+                if "terpene_subtypes" in differing:
+                    if flags["_f6"]:
+                        needed.append("terpene_subtypes_set_order")
+                    elif not (canon_moves and flags["_f5"]):
+                        attributable = False
+                if "terpene_reaction_tuples" in differing:
+                    if flags["_f7"]:
+                        needed.append("terpene_reaction_intersection_set_order")
+                    elif not (canon_moves and flags["_f5"]):
+                        attributable = False
+                if attributable and needed and all(k in known for k in needed):
+                    for k in needed:
+                        chk.count(f"differs_across_seeds_in_known_class_{k}")
+                        reproduced.add(k)
+                    continue
+                klass = ([k for k in needed if k not in known] or [None])[0] if attributable else None
+            elif e2e:
+                # differences confined to the gene_functions qualifier (the GenBank text with sorted gene_functions is
+                # identical) / to the order of product_categories in the regions JSON
+                if all(k in known for k in e2e):
+                    for k in e2e:
+                        chk.count(f"differs_across_seeds_in_known_class_{k}")
+                        reproduced.add(k)
+                    continue
+                klass = [k for k in e2e if k not in known][0]
+            elif fn == 8 and nontrivial(case, None):
+                klass = "annotate_definition_domains_set_order"
+            elif fn == 9 and len(fr_models[idx]) > 1:
+                klass = "filter_results_score_tie_set_order"
+            elif fn == 10 and nontrivial(case, None):
+                klass = "terpene_start_tie_set_order"
+            elif fn == 5 and base["extra"].get("crossing") \
+                    and len({tuple(spec[:3]) for spec in case["args"]["protos"]}) != len(case["args"]["protos"]):
+                klass = "unique_crossing_same_product_set_order"
+            elif fn == 5 and not base["extra"].get("crossing") \
                     and len({(spec[0], spec[1]) for spec in case["args"]["protos"]}) != len(case["args"]["protos"]):
                 klass = "unique_protoclusters_set_order"
             elif fn == 4 and formation_ties(case["args"]["config"]) and len(outputs_a) == len(outputs_b) == 1 \
                     and only_tied_singles_moved(outputs_a[0], outputs_b[0]):
                 klass = "single_candidates_set_order"
-            elif fn == 3 and outputs_a == outputs_b:
+            elif fn == 3 and outputs_a == outputs_b and not klass:
                 tied_u = base["extra"].get("_class_unique_tied") or res["extra"].get("_class_unique_tied")
                 tied_s = base["extra"].get("_class_singles_tied") or res["extra"].get("_class_singles_tied")
                 if differing == ["areas_json"] and tied_u and not tied_s:
@@ -793,7 +1297,33 @@ def run(chk):
                           {"theorem_or_correspondence": "model vs implementation / " + FN_NAME.get(fn, str(fn)), "function": fn,
                            "flat": flat, "implementation": out, "model": model, "input": cases[idx], "hash_seed": seed})
     chk.extra["disagreements"] = disagreements
-    chk.extra["formation_agree_modulo_tied_single_order"] = membership
+    chk.extra["formation_runs_with_forced_hash_order_compared_with_model_at_that_enumeration"] = \
+        sum(1 for flat in flat_cases if flat[1] == 15)
+    # ---- (b2) the model of the formation at OTHER enumerations of every set it iterates (FO.create_candidates_o:
+    # fn 14 = descending id, fn 15 = scrambled by ((id + 1) * a + site * b) mod m) against the ascending one (fn 4, the
+    # order the children observe and are compared with): C17_formation_perm_partial / _linear prove them equal under
+    # their guards; outside the guards (identical coordinates at the plain sorts, circular records) a difference means
+    # the MODEL predicts a dependence on the set order - reported as a counterexample of the model-level property
+    # (the code may or may not reach that order; the replay holds the input for a run with forced hash orders)
+    f4 = [i for i, flat in enumerate(flat_cases) if flat[1] == 4 and origin[i][1] == seeds[0]]
+    variants = [("descending id", [PROP, 14])] + [(f"scrambled a={a} b={b} m={m}", [PROP, 15, a, b, m])
+                                                   for a, b, m in ((3, 5, 7), (5, 1, 11), (7, 2, 13))]
+    order_dependent = 0
+    for name, head in variants:
+        other = common.run_driver([head + flat_cases[i][2:] for i in f4])
+        for i, out in zip(f4, other):
+            if out == model_outs[i]:
+                continue
+            order_dependent += 1
+            if order_dependent <= 2:
+                chk.violation("counterexample", "the formation model gives different candidates for two enumeration orders of "
+                              f"the sets it iterates (ascending id vs {name})",
+                              {"theorem_or_correspondence": "C17_formation_perm_partial / model at two enumerations",
+                               "function": 4, "flat": flat_cases[i], "input": cases[origin[i][0]],
+                               "model_ascending": model_outs[i], "model_other": out, "enumeration": name})
+    chk.extra["formation_model_cases_evaluated_at_other_enumerations"] = len(f4)
+    chk.extra["formation_model_enumerations"] = [name for name, _ in variants]
+    chk.extra["formation_model_order_dependent"] = order_dependent
     # ---- (c) documented order of get_unique_protoclusters
     for i, verdict in zip(spec_origin, common.run_driver(spec_cases)):
         idx, seed = origin[i]
@@ -818,8 +1348,9 @@ def run(chk):
     chk.crosscheck_vm([flat_cases[i] for i in sample], [model_outs[i] for i in sample])
     return chk.finish(RULE, trusted_extra=(
         "the interpreter's choice of set order is not modelled: the children sample it (hash seeds, permuted creation "
-        "order), the theorems quantify over all orders",
-        "Biopython (SeqIO GenBank writer), orjson: exercised by the end-to-end dumps only"), level="proof")
+        "order, forced small hashes), the theorems quantify over all orders",
+        "Biopython (SeqIO GenBank writer), orjson, jinja2 (gene descriptions of the regions JSON): exercised by the "
+        "end-to-end dumps only"), level="proof")
 
 
 def replay(chk, path):
